@@ -24,11 +24,15 @@ vars == <<img, hist, steps>>
 Shapes == {"1x1", "2x3", "4x5", "5x4", "1x6"}
 Dtypes == {"uint8", "uint16", "float32", "float64"}
 Keys == {"medium_index", "illum_wavelen", "illum_polarization", "noise_sd"}
-AttrKinds == {"none", "scalar", "per_channel_dict", "per_channel_array"}
+AttrKinds == {"none", "scalar", "scalar_zero", "per_channel_dict", "per_channel_array"}   \* scalar_zero: exactly 0
+\* which channels a multi-channel image has and in which order (colour names are what TIFF export
+\* understands; "ab" = two channels that are not colours)
+LabelOrders(c) == IF c = 1 THEN {"none"} ELSE IF c = 2 THEN {"rg", "gb", "br", "ab"} ELSE {"rgb", "grb"}
 
 Images == {[shape |-> s, dtype |-> d, channels |-> c, named |-> n, attrs |-> a] :
              s \in Shapes, d \in Dtypes, c \in {1, 2, 3}, n \in BOOLEAN, a \in [Keys -> AttrKinds]}
-ValidImage(i) == /\ (i.channels = 1 => \A k \in Keys : i.attrs[k] \in {"none", "scalar"})
+ValidImage(i) == /\ (i.channels = 1 => \A k \in Keys : i.attrs[k] \in {"none", "scalar", "scalar_zero"})
+                 /\ (\A k \in Keys : i.attrs[k] = "scalar_zero" => k = "noise_sd")   \* the only key for which 0 is meaningful
                  /\ i.attrs["medium_index"] \in {"none", "scalar"}
                  /\ (i.attrs["illum_polarization"] # "per_channel_array")
 
@@ -37,8 +41,13 @@ UsableBits(depth) == IF depth = 8 THEN 8 ELSE depth - 1
 Init ==
   /\ steps = 0
   /\ \/ Mode = "h5" /\ img \in {i \in Images : ValidImage(i)} /\ hist = <<>>
-     \/ Mode = "tiff" /\ hist = <<>>        \* single channel; a 1 x N image has no spacing to store
+     \/ Mode = "tiff" /\ hist = <<>>        \* a 1 x N image has no spacing to store
         /\ img \in {i \in Images : ValidImage(i) /\ i.channels = 1 /\ i.shape \in {"2x3", "4x5", "5x4"}}
+     \/ Mode = "tiffcolour" /\ hist = <<>>  \* colour export: channel layout x per-channel metadata
+        /\ img \in {[base |-> i, labels |-> l] : i \in {j \in Images : ValidImage(j) /\ j.channels > 1 /\ j.shape = "4x5"
+                                                                 /\ j.dtype \in {"uint8", "float64"} /\ j.named},
+                                                l \in {"rg", "gb", "br", "ab", "rgb", "grb"}}
+        /\ img.labels \in LabelOrders(img.base.channels)
      \/ Mode = "update" /\ img \in {i \in Images : ValidImage(i) /\ i.shape = "2x3" /\ i.dtype = "float64" /\ i.named}
         /\ hist = <<>>
      \/ Mode = "average" /\ img = [f \in 1..4 |-> 0] /\ hist = <<>>
@@ -47,7 +56,8 @@ Init ==
 
 SaveLoadH5 == /\ Mode = "h5" /\ steps < MaxCycles
               /\ hist' = Append(hist, "h5") /\ steps' = steps + 1 /\ UNCHANGED img
-SaveLoadTiff(depth) == /\ Mode = "tiff" /\ steps < 1
+SaveLoadTiff(depth) == /\ Mode \in {"tiff", "tiffcolour"} /\ steps < 1
+                       /\ (Mode = "tiffcolour" => depth = 8)        \* 16-bit colour is not a TIFF the imaging library writes
                        /\ hist' = Append(hist, <<"tiff", depth, UsableBits(depth)>>)
                        /\ steps' = steps + 1 /\ UNCHANGED img
 UpdateMetadata(K) == /\ Mode = "update" /\ steps < 1 /\ K # {}
